@@ -3,16 +3,19 @@
 
       UserSend r     a request enters the bounded flume channel (AsyncClient::publish etc.)
       Yield          poll() pops the oldest queued notification (done before any select arm runs)
-      TakeRequest    the request arm of select(): enabled iff
-                         !pending.is_empty() || (!inflight_full && !collision)
-                     and something is there to take; pending first, else the channel
+      TakeRequest    the request arm of select(): enabled iff !inflight_full && !collision
+                     (after the fix: commit a6a5e44; before it a non-empty pending bypassed the
+                     guard — finding F7, [take_enabled_orig]) and something is there to take;
+                     pending first, else the channel
       Net pkts       the readb arm: a batch of packets; replies are buffered and flushed after
                      the whole batch; an Err inside the batch fails the loop before the flush
       NetAbort pkts  the readb arm when the connection ends right after those packets: the state
                      machine has processed them, the buffered replies are NOT flushed, the loop
                      fails ("FailInBatch": the crash point inside a read batch)
       KeepAliveFire  the keep-alive arm: handle_outgoing_packet(PingReq)
-      Fail           any Err out of select(): EventLoop::clean()
+      Fail           any Err out of select(): EventLoop::clean() — the state's unacknowledged work
+                     goes IN FRONT of what is still pending (after the fix: commit 0960300; before
+                     it, behind — finding F20, [loop_clean_orig]), then the channel's requests
       Reconnect sp   poll() with no network: connect; pending.clear() iff !session_present
 
     The select arms only run when the notification queue is empty (select() returns a queued
@@ -49,9 +52,18 @@ Definition with_wire (l : lstate) (w : list packet) := mkLoop (st l) (pending l)
 
 Definition not_puback (r : request) : bool := match r with RPubAck _ => false | _ => true end.
 
-(** [EventLoop::clean]: drop the network, move the state's pending work and then the channel's
-    requests (minus PubAcks) behind what is already pending *)
+(** [EventLoop::clean]: drop the network; the state's pending work, then what was still pending,
+    then the channel's requests (minus PubAcks) *)
 Definition loop_clean (l : lstate) : Outcome (state * error) lstate :=
+  match clean (st l) with
+  | Ok (s', reqs) =>
+      Ok (mkLoop s' (reqs ++ pending l ++ filter not_puback (chan l)) [] false (wire l) (yielded l))
+  | Err e => Err e
+  | Panic t => Panic t
+  end.
+
+(** before commit 0960300 *)
+Definition loop_clean_orig (l : lstate) : Outcome (state * error) lstate :=
   match clean (st l) with
   | Ok (s', reqs) =>
       Ok (mkLoop s' (pending l ++ reqs ++ filter not_puback (chan l)) [] false (wire l) (yielded l))
@@ -60,8 +72,8 @@ Definition loop_clean (l : lstate) : Outcome (state * error) lstate :=
   end.
 
 (** an Err out of select(): clean(), and poll() returns the error *)
-Definition fail_with (l : lstate) (e : error) : lres :=
-  match loop_clean l with
+Definition fail_with_gen (lc : lstate -> Outcome (state * error) lstate) (l : lstate) (e : error) : lres :=
+  match lc l with
   | Ok l' => Failed l' e
   | Err _ => LPanic 0
   | Panic t => LPanic t
@@ -70,6 +82,12 @@ Definition fail_with (l : lstate) (e : error) : lres :=
 (** the flow-control guard of the request arm, as written in select() *)
 Definition inflight_full (l : lstate) : bool := max_inflight (st l) <=? inflight (st l).
 Definition take_enabled (l : lstate) : bool :=
+  connected l && match events (st l) with [] => true | _ => false end &&
+  (negb (inflight_full l) && negb (is_some (collision (st l)))) &&
+  negb (match pending l, chan l with [], [] => true | _, _ => false end).
+
+(** before commit a6a5e44 *)
+Definition take_enabled_orig (l : lstate) : bool :=
   connected l && match events (st l) with [] => true | _ => false end &&
   (negb (match pending l with [] => true | _ => false end)
    || (negb (inflight_full l) && negb (is_some (collision (st l))))) &&
@@ -101,7 +119,8 @@ Fixpoint read_batch (s : state) (pkts : list packet) (buf : list packet) : Outco
 Definition arm_ready (l : lstate) : bool :=
   connected l && match events (st l) with [] => true | _ => false end.
 
-Definition lstep (l : lstate) (o : lop) : lres :=
+Definition lstep_gen (te : lstate -> bool) (lc : lstate -> Outcome (state * error) lstate) (l : lstate) (o : lop) : lres :=
+  let fail_with := fail_with_gen lc in
   match o with
   | UserSend r => Stepped (mkLoop (st l) (pending l) (chan l ++ [r]) (connected l) (wire l) (yielded l))
   | Yield =>
@@ -110,7 +129,7 @@ Definition lstep (l : lstate) (o : lop) : lres :=
       | [] => Disabled
       end
   | TakeRequest =>
-      if take_enabled l then
+      if te l then
         match next_request l with
         | Some (r, l1) =>
             match handle_outgoing_packet (st l1) r with
@@ -149,7 +168,7 @@ Definition lstep (l : lstate) (o : lop) : lres :=
       else Disabled
   | Fail =>
       if connected l then
-        match loop_clean l with
+        match lc l with
         | Ok l' => Stepped l'
         | Err _ => LPanic 0
         | Panic t => LPanic t
@@ -161,16 +180,24 @@ Definition lstep (l : lstate) (o : lop) : lres :=
                            (yielded l ++ [EvIn (PConnAck sp 0)]))
   end.
 
-Definition lnext (l : lstate) (o : lop) : option lstate :=
-  match lstep l o with
+Definition lstep := lstep_gen take_enabled loop_clean.
+Definition lstep_orig := lstep_gen take_enabled_orig loop_clean_orig.
+Definition fail_with := fail_with_gen loop_clean.
+
+Definition lnext_gen (stp : lstate -> lop -> lres) (l : lstate) (o : lop) : option lstate :=
+  match stp l o with
   | Stepped l' => Some l'
   | Failed l' _ => Some l'
   | Disabled => Some l
   | LPanic _ => None
   end.
 
-Fixpoint lrun (l : lstate) (h : list lop) : option lstate :=
+Definition lnext := lnext_gen lstep.
+
+Fixpoint lrun_gen (stp : lstate -> lop -> lres) (l : lstate) (h : list lop) : option lstate :=
   match h with
   | [] => Some l
-  | o :: r => match lnext l o with Some l' => lrun l' r | None => None end
+  | o :: r => match lnext_gen stp l o with Some l' => lrun_gen stp l' r | None => None end
   end.
+Definition lrun := lrun_gen lstep.
+Definition lrun_orig := lrun_gen lstep_orig.
